@@ -86,7 +86,13 @@ def class_(
         else OrderedDict()
     )
     if returns:
-        intermediate_repr["params"].update(returns)
+        # The return entry becomes an attribute; of this emission only, not of the caller's interface
+        intermediate_repr = dict(
+            intermediate_repr,
+            params=OrderedDict(
+                chain(intermediate_repr["params"].items(), returns.items())
+            ),
+        )
         del intermediate_repr["returns"]
 
     internal_body: ClassDef.body = intermediate_repr.get("_internal", {}).get(
